@@ -1783,3 +1783,141 @@ RAW_MODELS[:0] = [
     (r'^std::option::Option::or$', m_option_or),
 ]
 MODELS = [(re.compile(p), f) for p, f in RAW_MODELS]
+
+
+# ------------------------------------------------------------------ proactive batch: APIs a maintainer of this contract is likely to reach for
+def m_map_has(ex, st, a, c, m):
+    ns, key = _map_ns(ex, a[0]), sval(ex, a[2])
+    st.world.log.append(('load', ns, key, None))
+    return [(True, z3.simplify(z3.Or(*[_entry_match(e, key) for e in st.world.maps[ns]]) if st.world.maps[ns] else z3.BoolVal(False)))]
+
+
+def m_item_may_load(ex, st, a, c, m):
+    ns = _item_ns(ex, a[0])
+    v = st.world.items.get(ns)
+    st.world.log.append(('load', ns, None, None))
+    return [(True, ok(NONE() if v is None else some(clone(v, {}))))]
+
+
+def m_item_exists(ex, st, a, c, m):
+    return [(True, z3.BoolVal(st.world.items.get(_item_ns(ex, a[0])) is not None))]
+
+
+def m_item_remove(ex, st, a, c, m):
+    if st.world.readonly:
+        raise Unsupported('write in read-only context')
+    ns = _item_ns(ex, a[0])
+    st.world.items[ns] = None
+    st.world.log.append(('remove', ns, None, None))
+    return [(True, unit())]
+
+
+def m_u_checked_div(ex, st, a, c, m):
+    x, y = uval(ex, a[0]), uval(ex, a[1])
+    ys = z3.simplify(y) if isinstance(y, z3.ExprRef) else z3.IntVal(y)
+    if z3.is_int_value(ys) and ys.as_long() != 0:
+        q, r = x / ys, x % ys
+    else:
+        q, r = ex.euclid(st, x if isinstance(x, z3.ExprRef) else z3.IntVal(x), ys)
+    res = q if 'div' in c.rsplit('::', 1)[1] else r
+    return [(ys != 0, ok(U(res))), (ys == 0, err(Adt('DivideByZeroError', None, [])))]
+
+
+def m_dec_is_integer(ex, st, a, c, m):
+    x = dec(ex, a[0])
+    n, d = x.fields[0], x.fields[1]
+    if z3.is_int_value(d):
+        return [(True, n % d == 0)]
+    q, r = ex.euclid(st, n, d)
+    return [(True, r == 0)]
+
+
+def m_dec_const(n):
+    def f(ex, st, a, c, m):
+        return [(True, Dec(z3.IntVal(n), z3.IntVal(1)))]
+    return f
+
+
+def m_dec_normalize(ex, st, a, c, m):
+    x = dec(ex, a[0])
+    return [(True, Dec(x.fields[0], x.fields[1], x.fields[2], None, x.fields[4] if len(x.fields) > 4 else None))]
+
+
+def m_addr_unchecked(ex, st, a, c, m):
+    return [(True, Adt('Addr', None, [sval(ex, a[0])]))]
+
+
+def m_add_messages(ex, st, a, c, m):
+    a[0].fields[0].extend(ex.deref(a[1]))
+    return [(True, a[0])]
+
+
+def m_iter_position(ex, st, a, c, m):
+    it = ex.deref(a[0])
+    clo_text = ex.closure_text(c)
+    items = _iter_items(ex, st, it)
+    outs, none_before = [], []
+    for i, x in enumerate(items):
+        r = ex.call_closure(st, clo_text, a[1], [x])
+        if len(r) != 1:
+            raise Unsupported('forking closure in position')
+        hit = r[0][1]
+        outs.append((z3.And(*(none_before + [hit])), some(z3.IntVal(i))))
+        none_before.append(z3.Not(hit))
+    outs.append((z3.And(*none_before) if none_before else True, NONE()))
+    return outs
+
+
+def m_iter_enumerate(ex, st, a, c, m):
+    items = _iter_items(ex, st, ex.deref(a[0]))
+    return [(True, Adt('Iter', None, [[Adt('tuple', None, [z3.IntVal(i), x]) for i, x in enumerate(items)], 0]))]
+
+
+def m_iter_skip(ex, st, a, c, m):
+    n = z3.simplify(a[1]) if isinstance(a[1], z3.ExprRef) else z3.IntVal(a[1])
+    if not z3.is_int_value(n):
+        raise Unsupported('skip with a symbolic count')
+    return [(True, Adt('Iter', None, [_iter_items(ex, st, ex.deref(a[0]))[n.as_long():], 0]))]
+
+
+def m_iter_last(ex, st, a, c, m):
+    items = _iter_items(ex, st, ex.deref(a[0]))
+    return [(True, some(items[-1]) if items else NONE())]
+
+
+f_str_contains = z3.Function('str_contains', StrS, StrS, z3.BoolSort())
+f_str_starts = z3.Function('str_starts_with', StrS, StrS, z3.BoolSort())
+f_str_trim = z3.Function('str_trim', StrS, StrS)
+f_parse_u128_ok = z3.Function('parse_u128_ok', StrS, z3.BoolSort())
+f_parse_u128 = z3.Function('parse_u128', StrS, z3.IntSort())
+
+
+def m_str_contains(ex, st, a, c, m):
+    return [(True, f_str_contains(sval(ex, a[0]), sval(ex, a[1])))]
+
+
+def m_str_starts(ex, st, a, c, m):
+    return [(True, f_str_starts(sval(ex, a[0]), sval(ex, a[1])))]
+
+
+def m_str_trim(ex, st, a, c, m):
+    return [(True, f_str_trim(sval(ex, a[0])))]
+
+
+def m_has_coins(ex, st, a, c, m):
+    coins, want = ex.deref(a[0]), ex.deref(a[1])
+    return [(True, z3.Or(*[z3.And(cn.fields[0] == want.fields[0], uval(ex, cn.fields[1]) >= uval(ex, want.fields[1])) for cn in coins]) if coins else z3.BoolVal(False))]
+
+
+RAW_MODELS[:0] = [
+    (r'^cw_storage_plus::Map::has$', m_map_has), (r'^Item::may_load$', m_item_may_load), (r'^Item::exists$', m_item_exists), (r'^Item::remove$', m_item_remove),
+    (r'^Uint128::checked_div$|^Uint128::checked_rem$', m_u_checked_div),
+    (r'^rust_decimal::Decimal::is_integer$', m_dec_is_integer), (r'^rust_decimal::Decimal::normalize$', m_dec_normalize),
+    (r'^Addr::unchecked$', m_addr_unchecked), (r'^Response::add_messages$', m_add_messages),
+    (r'^<.* as Iterator>::position$', m_iter_position), (r'^<.* as Iterator>::enumerate$', m_iter_enumerate),
+    (r'^<.* as Iterator>::skip$', m_iter_skip), (r'^<.* as Iterator>::last$', m_iter_last),
+    (r'^core::str::<impl str>::contains$|^std::string::String::contains$', m_str_contains),
+    (r'^core::str::<impl str>::starts_with$', m_str_starts), (r'^core::str::<impl str>::trim$', m_str_trim),
+    (r'^has_coins$', m_has_coins),
+]
+MODELS = [(re.compile(p), f) for p, f in RAW_MODELS]
